@@ -542,8 +542,8 @@ def _int_shards(tier):
         # depth 2 over the full alphabet: 151k trees, sharded by the first three opcodes
         out += [({"depth": 2, "alpha": 0, "o0": k}, 1800) for k in range(10)]
         out += [({"depth": 2, "alpha": 0, "o0": k, "o1": j}, 3000) for k in range(10, 13) for j in range(16)]
-        out += [({"depth": 2, "alpha": 0, "o0": k, "o1": j, "o2": i}, 3000) for k in range(13, 16) for j in range(16)
-                for i in range(16)]
+        out += [({"depth": 2, "alpha": 0, "o0": k, "o1": j, "o2": i}, 3000) for k in range(13, 16) for j in range(10)
+                for i in range(10)]
     return out
 
 
@@ -569,7 +569,7 @@ HARNESSES = [
                              "AfterPreprocessing(+1), MatchesAll, MatchesAll(first_only), MatchesAny} (340 trees), plus all 3964 trees of depth 2 over "
                              "the reduced alphabet {Equals, LessThan, Never, NotEquals | Not, AfterPreprocessing | MatchesAll, MatchesAny}; "
                              "matchee: one unbounded symbolic int (wrapped in an opaque ordered value)",
-                    "thorough": "additionally all 348k trees of depth 2 over the full alphabet"},
+                    "thorough": "additionally depth-2 trees over the full 16-opcode alphabet selected by pre-order prefixes: top opcode < 13 with any first child; binary tops whose next two pre-order opcodes are < 10 (measured: 358 shards, 2 310 further paths)"},
             rule="one (tree, branch outcome pattern) per path covering all ints on that pattern; non-trivial = tree has a combinator",
             sym=("p0", "p1", "p2", "x"), twin_fix={"depth": 1, "alpha": 0}),
     Harness("seq", h_seq, _seq_shards,
